@@ -127,6 +127,9 @@ func ZZ_C02_Two() {
 		rt.Reach("join-then-leave")
 	case 2:
 		leave(a)
+		// a join that arrives while its successor's predecessor pointer still names the departed node is refused
+		// (retryably) until that pointer is repaired: one maintenance round stands for the joiner's retry delay
+		w.round(0)
 		if !join(b) {
 			return
 		}
